@@ -324,7 +324,7 @@ def run(prop, tier):
     with Scratch(prop) as wd:
         # 1. the design: Store refines the monitors and keeps its invariants
         mc = tlc.model_check("MCStore", "MCStore_quick.cfg" if quick else "MCStore_thorough.cfg", wd,
-                             timeout=280 if quick else 2400)
+                             timeout=600 if quick else 7200)
         rep.add_tlc(mc, "exhaustive: Store.tla refines DictMon/LruMon/RoMon + invariants")
 
         common.tick("model check done")
